@@ -5,6 +5,7 @@ import (
 	"go/ast"
 	"go/token"
 	"go/types"
+	"sort"
 	"strings"
 )
 
@@ -814,26 +815,16 @@ func ruleFlushableAlignment(r *Report, rule string) {
 	}
 	// literals
 	nlit := 0
-	ast.Inspect(fi.Decl.Body, func(n ast.Node) bool {
-		cl, ok := n.(*ast.CompositeLit)
-		if !ok {
-			return true
-		}
-		if nt := namedOf(info.TypeOf(cl)); nt == nil || nt.Obj().Name() != "flushable" {
-			return true
-		}
+	for _, bo := range builtObjects(info, fi.Decl.Body, "flushable") {
+		cl := bo
 		nlit++
 		got := map[string]types.Object{}
-		for _, el := range cl.Elts {
-			kv, ok := el.(*ast.KeyValueExpr)
-			if !ok {
-				continue
-			}
-			v := ast.Unparen(kv.Value)
+		for name, val := range bo.Vals {
+			v := ast.Unparen(val)
 			if c, ok := v.(*ast.CallExpr); ok && len(c.Args) == 1 { // slices.Clone(x)
 				v = c.Args[0]
 			}
-			got[kv.Key.(*ast.Ident).Name] = objOf(info, v)
+			got[name] = objOf(info, v)
 		}
 		ok2 := false
 		for _, k := range triples {
@@ -841,14 +832,16 @@ func ruleFlushableAlignment(r *Report, rule string) {
 				ok2 = true
 			}
 		}
-		r.Ob(rule, fi.Name+"/flushable-fields-in-role-order", cl.Pos(), ok2, "flushable{sbsBatch, sbsBatchDrops, sbsBatchSnapshots} is filled from one aligned (segments, drops, snapshots) triple in that order")
+		r.Ob(rule, fi.Name+"/flushable-fields-in-role-order", cl.Pos, ok2, "flushable{sbsBatch, sbsBatchDrops, sbsBatchSnapshots} is filled from one aligned (segments, drops, snapshots) triple in that order")
 		// a working slice that is re-sliced to [:0] and refilled must be COPIED into the literal
-		for _, el := range cl.Elts {
-			kv, ok := el.(*ast.KeyValueExpr)
-			if !ok {
-				continue
-			}
-			v := ast.Unparen(kv.Value)
+		var fnames []string
+		for name := range bo.Vals {
+			fnames = append(fnames, name)
+		}
+		sort.Strings(fnames)
+		for _, fname := range fnames {
+			val := bo.Vals[fname]
+			v := ast.Unparen(val)
 			copied := false
 			if c, ok := v.(*ast.CallExpr); ok {
 				copied = true
@@ -877,11 +870,10 @@ func ruleFlushableAlignment(r *Report, rule string) {
 				return true
 			})
 			if reused {
-				r.Ob(rule, fi.Name+"/reused-working-slice-copied/"+kv.Key.(*ast.Ident).Name, kv.Pos(), copied, "the working slice "+src.Name()+" is truncated with [:0] and refilled for the next group, so the flushable must hold a copy (slices.Clone); an alias would make an earlier group see a later group's entries")
+				r.Ob(rule, fi.Name+"/reused-working-slice-copied/"+fname, val.Pos(), copied, "the working slice "+src.Name()+" is truncated with [:0] and refilled for the next group, so the flushable must hold a copy (slices.Clone); an alias would make an earlier group see a later group's entries")
 			}
 		}
-		return true
-	})
+	}
 	if nlit < 1 || len(triples) < 1 {
 		undecidedf("%s: flushable alignment anchors not found (literals=%d triples=%d)", fi.Name, nlit, len(triples))
 	}
@@ -923,7 +915,6 @@ func ruleFlushableAlignment(r *Report, rule string) {
 		return true
 	})
 }
-
 
 // elemOfCollection: e denotes "the element of collection C at index K" - spelled
 // C[K], or as the value variable of a `for K, v := range C` loop enclosing it.
